@@ -94,3 +94,23 @@ package zoekt
 //@     invariant lb <= len(b) && len(r.b) <= len(b)
 //@     invariant 0 <= $n && len(allBranches) >= $n
 //@   ensures true
+
+// ---------------------------------------------------------------------------
+// C24: what a Streamer may be handed
+// ---------------------------------------------------------------------------
+
+// Implementations (shardedSearcher.Search / StreamSearch, indexData.Search)
+// dereference the options: index.NewDisplayTruncator(opts), opts.MaxWallTime.
+// Handlers must therefore never pass nil options on.
+//@ func zoekt.Streamer.Search(ctx, q, opts)
+//@   requires opts != nil
+//@   assigns nothing
+//@ func zoekt.Streamer.StreamSearch(ctx, q, opts, sender)
+//@   requires opts != nil
+//@   assigns sentStats, sentFiles
+
+// Plain field-by-field copy into a fresh struct (nil for nil).
+//@ func zoekt.SearchOptionsFromProto
+//@   trusted
+//@   ensures p != nil ==> result != nil
+//@   assigns nothing
